@@ -11,7 +11,7 @@
            batch    {at, items}              PutChangeSet into layer `at`; val [-1] = deletion
            persist  {at, pop}                layer `at` flushed into what is below; pop: a private top layer, gone afterwards
            get      {at, key, res}           res = value or [-2]
-           seek     {at, prefix, start, back, depth, cutlen, res}     res = [[key, value], ...] as delivered
+           seek     {at, prefix, start, back, depth, cutlen, limit, res}   res = [[key, value], ...] as delivered
            seekgc   {prefix, start, back, visited, removed}           on the backend: pairs visited, keys deleted  *)
 EXTENDS TraceIO, KVStore
 
@@ -45,8 +45,10 @@ Step ==
                  IN  Report(l, NameIf(e.res = exp, "GetMatches"), [exp |-> exp])
          [] e.event = "seek"    ->
               /\ UNCHANGED <<disk, layers>>
-              /\ LET exp == SeekRef(ViewAt(disk, layers, e.at, e.depth),
-                                    [prefix |-> e.prefix, start |-> e.start, back |-> e.back], e.cutlen)
+              /\ LET full == SeekRef(ViewAt(disk, layers, e.at, e.depth),
+                                     [prefix |-> e.prefix, start |-> e.start, back |-> e.back], e.cutlen)
+                     \* limit > 0: the callback stopped the scan after that many items
+                     exp  == IF e.limit > 0 /\ Len(full) > e.limit THEN SubSeq(full, 1, e.limit) ELSE full
                  IN  Report(l, NameIf(e.res = exp, "SeekMatches"), [exp |-> exp])
          [] e.event = "seekgc"  ->
               /\ UNCHANGED layers
